@@ -368,6 +368,17 @@ where
         return;
     }
     rep.held();
+    // the public field std may be reassigned: logp follows it
+    {
+        let mut p2 = IsotropicGaussian::<F>::new(F::of(std * 3.0));
+        let _ = p2.sample(&ff);
+        p2.std = F::of(std);
+        let l2 = p2.logp(&ff, &tf).to_f64().unwrap();
+        if (l2 - l_ft).abs() > 1e-12 * (1.0 + l_ft.abs()) {
+            rep.violation(&format!("{sig} logp-ignores-reassigned-std"), mon, case, json!({"std": std, "logp_fresh": l_ft, "logp_after_reassigning_std": l2}));
+            return;
+        }
+    }
     if case < 2 {
         rep.sample(json!({"monitor": mon, "type": F::NAME, "std": std, "d": d, "logp(from,to)": l_ft, "definition": r}));
     }
